@@ -1,1 +1,303 @@
-pub fn run(_a: &vcommon::Args) {}
+//! C05 — Collaborative object state is a function of the change set.
+//!
+//! The same set of change commits is loaded (a) through every permutation / duplication of the tip
+//! references (a `Store` wrapper that only reorders `objects()`), observed with a recording
+//! evaluator that logs the exact apply order and concurrent sets, and (b) by the real Issue / Patch
+//! evaluators through different placements of the references: tips under permuted namespaces,
+//! extra references to interior changes, references added one by one. All results must be equal.
+use std::collections::BTreeMap;
+
+use radicle::cob::issue::Issue;
+use radicle::cob::patch::Patch;
+use radicle::cob::{self, change, object, Entry, ObjectId, TypeName};
+use radicle::git::Oid;
+use radicle::storage::git::Repository;
+use radicle_cob::signatures::ExtendedSignature;
+use vcommon::{json, Args, Reporter, Rng, Value};
+
+use crate::gen::{self, Hist, Knobs};
+use crate::world::{eval, Snap, World};
+
+// ---- (a) recording evaluator behind a reordering store -----------------------------------------
+
+struct Wrap<'a> {
+    repo: &'a Repository,
+    /// permutation / duplication applied to the enumerated references
+    order: std::cell::RefCell<Vec<usize>>,
+}
+
+impl cob::Store for Wrap<'_> {}
+
+impl change::Storage for Wrap<'_> {
+    type StoreError = <Repository as change::Storage>::StoreError;
+    type LoadError = <Repository as change::Storage>::LoadError;
+    type ObjectId = Oid;
+    type Parent = Oid;
+    type Signatures = ExtendedSignature;
+
+    fn store<G>(&self, resource: Option<Oid>, related: Vec<Oid>, signer: &G, template: change::Template<Oid>) -> Result<Entry, Self::StoreError>
+    where
+        G: signature::Signer<ExtendedSignature>,
+    {
+        self.repo.store(resource, related, signer, template)
+    }
+    fn load(&self, id: Oid) -> Result<Entry, Self::LoadError> {
+        change::Storage::load(self.repo, id)
+    }
+    fn parents_of(&self, id: &Oid) -> Result<Vec<Oid>, Self::LoadError> {
+        self.repo.parents_of(id)
+    }
+}
+
+impl object::Storage for Wrap<'_> {
+    type ObjectsError = <Repository as object::Storage>::ObjectsError;
+    type TypesError = <Repository as object::Storage>::TypesError;
+    type UpdateError = <Repository as object::Storage>::UpdateError;
+    type RemoveError = <Repository as object::Storage>::RemoveError;
+    type Namespace = <Repository as object::Storage>::Namespace;
+
+    fn objects(&self, typename: &TypeName, object_id: &ObjectId) -> Result<object::Objects, Self::ObjectsError> {
+        let o = self.repo.objects(typename, object_id)?;
+        let refs: Vec<object::Reference> = o.iter().cloned().collect();
+        let order = self.order.borrow();
+        let picked: Vec<object::Reference> = order.iter().filter(|i| **i < refs.len()).map(|i| refs[*i].clone()).collect();
+        Ok(picked.into())
+    }
+    fn types(&self, typename: &TypeName) -> Result<BTreeMap<ObjectId, object::Objects>, Self::TypesError> {
+        self.repo.types(typename)
+    }
+    fn update(&self, ns: &Self::Namespace, t: &TypeName, o: &ObjectId, e: &cob::EntryId) -> Result<(), Self::UpdateError> {
+        self.repo.update(ns, t, o, e)
+    }
+    fn remove(&self, ns: &Self::Namespace, t: &TypeName, o: &ObjectId) -> Result<(), Self::RemoveError> {
+        object::Storage::remove(self.repo, ns, t, o)
+    }
+}
+
+/// Logs (change, sorted concurrent set) in apply order; rejects changes by a fixed predicate of the
+/// change id so that pruning is exercised too.
+#[derive(Debug, Clone, PartialEq)]
+struct Rec {
+    log: Vec<(Oid, Vec<Oid>)>,
+    reject_mod: u8,
+}
+
+#[derive(Debug)]
+struct RecErr;
+impl std::fmt::Display for RecErr {
+    fn fmt(&self, f: &mut std::fmt::Formatter<'_>) -> std::fmt::Result {
+        write!(f, "rejected by recording evaluator")
+    }
+}
+impl std::error::Error for RecErr {}
+
+thread_local! { static REJECT_MOD: std::cell::Cell<u8> = const { std::cell::Cell::new(0) }; }
+
+impl<R> cob::Evaluate<R> for Rec {
+    type Error = RecErr;
+    fn init(entry: &Entry, _store: &R) -> Result<Self, RecErr> {
+        Ok(Rec { log: vec![(entry.id, vec![])], reject_mod: REJECT_MOD.with(|m| m.get()) })
+    }
+    fn apply<'a, I: Iterator<Item = (&'a Oid, &'a Entry)>>(&mut self, entry: &Entry, concurrent: I, _store: &R) -> Result<(), RecErr> {
+        let mut c: Vec<Oid> = concurrent.map(|(k, _)| *k).collect();
+        c.sort();
+        self.log.push((entry.id, c));
+        if self.reject_mod > 0 && entry.id.as_bytes()[0] % self.reject_mod == 0 {
+            return Err(RecErr);
+        }
+        Ok(())
+    }
+}
+
+fn rec_eval(w: &World, h: &Hist, order: Vec<usize>) -> Result<(Vec<(Oid, Vec<Oid>)>, Vec<Oid>), String> {
+    let wrap = Wrap { repo: &w.repo, order: std::cell::RefCell::new(order) };
+    match vcommon::guarded(|| cob::get::<Rec, _>(&wrap, &h.typename, &h.id)) {
+        Ok(Ok(Some(o))) => {
+            let mut entries: Vec<Oid> = o.history().graph().sorted().into_iter().collect();
+            entries.sort();
+            Ok((o.object().log.clone(), entries))
+        }
+        Ok(Ok(None)) => Err("object not found".into()),
+        Ok(Err(e)) => Err(e.to_string()),
+        Err(p) => Err(format!("PANIC {p}")),
+    }
+}
+
+fn permutations(n: usize, rng: &mut Rng, max: usize) -> Vec<Vec<usize>> {
+    let mut out = vec![];
+    if n <= 5 {
+        fn go(cur: &mut Vec<usize>, n: usize, out: &mut Vec<Vec<usize>>) {
+            if cur.len() == n {
+                out.push(cur.clone());
+                return;
+            }
+            for k in 0..n {
+                if !cur.contains(&k) {
+                    cur.push(k);
+                    go(cur, n, out);
+                    cur.pop();
+                }
+            }
+        }
+        go(&mut vec![], n, &mut out);
+    } else {
+        for _ in 0..max {
+            let mut p: Vec<usize> = (0..n).collect();
+            rng.shuffle(&mut p);
+            out.push(p);
+        }
+    }
+    out
+}
+
+fn variant_json(name: &str, detail: Value) -> Value {
+    json!({"variant": name, "detail": detail})
+}
+
+fn check<T>(rep: &mut Reporter, w: &World, h: &Hist, rng: &mut Rng, kind: &str)
+where
+    T: cob::Evaluate<Repository> + serde::Serialize,
+{
+    rep.eval();
+    let n = h.ops.len();
+    let tips = h.prefix_tips(n);
+    let ns: Vec<usize> = (0..24).collect();
+    w.set_refs(&h.typename, &h.id, &tips, &ns);
+    let base: Snap = match eval::<T>(w, &h.typename, &h.id) {
+        Ok(Some(s)) => s,
+        other => {
+            rep.inconclusive("base evaluation failed", json!({"r": format!("{other:?}")}));
+            return;
+        }
+    };
+    let concurrent = h.has_concurrency();
+    let tie = h.has_timestamp_tie();
+    if concurrent {
+        rep.count(&format!("{kind}.with-concurrent-branches"));
+    }
+    if concurrent && tie {
+        rep.count(&format!("{kind}.with-concurrent-branches-and-timestamp-tie"));
+        rep.nontrivial(vcommon::fnv(h.id.to_string().as_bytes()));
+    }
+    if tips.len() >= 2 {
+        rep.count(&format!("{kind}.with-several-tips"));
+    }
+    let mut compare = |rep: &mut Reporter, name: &str, detail: Value, got: Result<Option<Snap>, String>| -> bool {
+        rep.count(&format!("variant.{name}"));
+        match got {
+            Ok(Some(s)) => {
+                if s.entries != base.entries || s.edges != base.edges || s.tips != base.tips {
+                    rep.violation(&format!("C05/{kind}/history-differs/{name}"), json!({"variant": variant_json(name, detail), "history": h.json(w)}));
+                    return false;
+                }
+                if s.state != base.state {
+                    rep.violation(&format!("C05/{kind}/state-differs/{name}"), json!({"variant": variant_json(name, detail), "history": h.json(w), "base_state": base.state, "variant_state": s.state}));
+                    return false;
+                }
+                true
+            }
+            other => {
+                rep.violation(&format!("C05/{kind}/evaluation-fails/{name}"), json!({"variant": variant_json(name, detail), "result": format!("{other:?}"), "history": h.json(w)}));
+                false
+            }
+        }
+    };
+    // (b1) tips under permuted namespaces (enumeration order = namespace order)
+    for p in permutations(tips.len(), rng, 8).into_iter().take(24) {
+        let t: Vec<Oid> = p.iter().map(|i| tips[*i]).collect();
+        w.set_refs(&h.typename, &h.id, &t, &ns);
+        if !compare(rep, "tips-under-permuted-namespaces", json!(p), eval::<T>(w, &h.typename, &h.id)) {
+            return;
+        }
+    }
+    // (b2) extra references to interior changes / duplicated references (same reachable closure)
+    for _ in 0..3 {
+        let mut t = tips.clone();
+        for _ in 0..1 + rng.usize(4) {
+            t.push(h.ops[rng.usize(n)].oid);
+        }
+        rng.shuffle(&mut t);
+        let mut nso = ns.clone();
+        rng.shuffle(&mut nso);
+        w.set_refs(&h.typename, &h.id, &t, &nso);
+        if !compare(rep, "extra-refs-to-interior-changes", json!(t.iter().map(|o| h.index_of(o)).collect::<Vec<_>>()), eval::<T>(w, &h.typename, &h.id)) {
+            return;
+        }
+    }
+    // (b3) references received one by one in random order, evaluating in between
+    {
+        let mut t = tips.clone();
+        rng.shuffle(&mut t);
+        w.clear_refs(&h.typename, &h.id);
+        let mut last = None;
+        for k in 1..=t.len() {
+            w.set_refs(&h.typename, &h.id, &t[..k], &ns);
+            last = Some(eval::<T>(w, &h.typename, &h.id));
+        }
+        if let Some(l) = last {
+            if !compare(rep, "refs-received-one-by-one", json!(t.iter().map(|o| h.index_of(o)).collect::<Vec<_>>()), l) {
+                return;
+            }
+        }
+    }
+    // (a) recording evaluator behind the reordering store
+    w.set_refs(&h.typename, &h.id, &tips, &ns);
+    for reject_mod in [0u8, 3] {
+        REJECT_MOD.with(|m| m.set(reject_mod));
+        let ident: Vec<usize> = (0..tips.len()).collect();
+        let Ok(base_log) = rec_eval(w, h, ident) else {
+            rep.inconclusive("recording evaluation failed", json!({}));
+            return;
+        };
+        let mut orders = permutations(tips.len(), rng, 12);
+        // duplicated references
+        let mut dup: Vec<usize> = (0..tips.len()).chain((0..tips.len()).rev()).collect();
+        rng.shuffle(&mut dup);
+        orders.push(dup);
+        for o in orders.into_iter().take(40) {
+            rep.count("variant.recording-evaluator-reordered-objects");
+            match rec_eval(w, h, o.clone()) {
+                Ok(l) if l == base_log => {}
+                other => {
+                    rep.violation(&format!("C05/{kind}/apply-order-or-concurrent-sets-depend-on-reference-enumeration-order"),
+                        json!({"order": o, "reject_mod": reject_mod, "base_log": format!("{:?}", base_log.0), "got": format!("{:?}", other.map(|l| l.0)), "history": h.json(w)}));
+                    return;
+                }
+            }
+        }
+    }
+    REJECT_MOD.with(|m| m.set(0));
+    if rep.wants_sample() && concurrent && tie && tips.len() >= 2 {
+        rep.sample(json!({"history": h.json(w), "tips": tips.len(), "accepted": base.entries.len()}));
+    }
+    w.clear_refs(&h.typename, &h.id);
+}
+
+pub fn run(args: &Args) {
+    let mut rep = Reporter::new("C05");
+    let n = args.budget(1_200, 12_000);
+    let mut w = World::new(2, 5, 1, "c05");
+    for k in 0..n {
+        let mut rng = Rng::new(args.case_seed(k));
+        if k % 40 == 39 {
+            w = World::new(1 + rng.usize(3), 5, 1, "c05");
+        }
+        let knobs = Knobs {
+            nops: 4 + rng.usize(if args.thorough { 18 } else { 12 }),
+            ts_mode: 1 + rng.below(2) as u8,
+            p_multi_reject: 80,
+            p_bad_sig: 30,
+            p_branch: 450,
+            p_child_of_doomed: 80,
+            unprivileged: true,
+        };
+        if k % 2 == 0 {
+            let h = gen::gen_issue(&w, &mut rng, &knobs);
+            check::<Issue>(&mut rep, &w, &h, &mut rng, "issue");
+        } else {
+            let h = gen::gen_patch(&w, &mut rng, &knobs);
+            check::<Patch>(&mut rep, &w, &h, &mut rng, "patch");
+        }
+    }
+    rep.finish();
+}
